@@ -345,7 +345,9 @@ def finish(prop, level, tier, seed, jobs, t0, assumptions, rule, extra_cov=None,
             unknown.append(v)
     for kid, (k, v) in seen_known.items():
         lines.append("KNOWN-FINDING: property=%s %s [%s]" % (prop, k["what"], kid))
-    rdir = os.path.join(VERIF, "evidence", "replay")
+    # runs against a deliberately changed tree (VERIF_MUTANT) must not overwrite the evidence of the real tree
+    evdir = os.path.join(VERIF, "evidence") if not os.environ.get("VERIF_MUTANT") else os.path.join(BUILD, "evidence-mutant")
+    rdir = os.path.join(evdir, "replay")
     # drop stale replay files of this property
     for f in glob.glob(os.path.join(rdir, prop + "-*.json")):
         try:
@@ -376,8 +378,8 @@ def finish(prop, level, tier, seed, jobs, t0, assumptions, rule, extra_cov=None,
           "violations": len(seen_keys), "known_findings_seen": sorted(seen_known.keys())}
     if broken:
         ev["broken_harness"] = broken[:10]
-    os.makedirs(os.path.join(VERIF, "evidence"), exist_ok=True)
-    json.dump(ev, open(os.path.join(VERIF, "evidence", prop + ".json"), "w"), indent=1, default=str)
+    os.makedirs(evdir, exist_ok=True)
+    json.dump(ev, open(os.path.join(evdir, prop + ".json"), "w"), indent=1, default=str)
     for b in broken[:10]:
         print("BROKEN-HARNESS property=%s %s" % (prop, b[:3000].replace("\n", "\n    ")))
     for l in lines:
